@@ -183,23 +183,58 @@ def optionalChunk (rs : List Res) (id : String) (dflt : J) (dec : Bytes → R J)
     dec c.data
   else .ok dflt
 
+/-- the script part: Lctx -> (optional Lnam) -> one decompiled script per non-negative reference -/
+def scriptsPart (D : Decoders) (rs : List Res) : R (ScrDict × ScrDict) :=
+  if existsChunk rs "Lctx" then
+    match locateChunk rs "Lctx" with
+    | .error e => .error e
+    | .ok res =>
+      match res.chunk with
+      | .error e => .error e
+      | .ok lc =>
+        match D.lctx lc.data with
+        | .error e => .error e
+        | .ok refs =>
+          match optionalChunk rs "Lnam" (.arr []) D.lnam with
+          | .error e => .error e
+          | .ok names => scriptLoop D rs names refs [] []
+  else .ok ([], [])
+
 /-- everything after the key table has been decoded (the only step that depends on the container's byte order) -/
-def assembleK (D : Decoders) (rs : List Res) (key : KeyData) : R DirectorFile := do
-  let vc ← (← locateChunk rs "VWCF").chunk
-  let info ← D.vwcf vc.data
-  let cc ← (← locateChunk rs "CAS*").chunk
-  let cas ← D.cas cc.data
-  let (lingo, js) ← if existsChunk rs "Lctx" then do
-      let lc ← (← locateChunk rs "Lctx").chunk
-      let refs ← D.lctx lc.data
-      let names ← optionalChunk rs "Lnam" (.arr []) D.lnam
-      scriptLoop D rs names refs [] []
-    else pure ([], [])
-  let markers ← optionalChunk rs "VWLB" (.arr []) D.vwlb
-  let score ← optionalChunk rs "VWSC" (.obj []) D.score
-  let fontmap ← optionalChunk rs "Fmap" (.arr []) D.fmap
-  let cast ← castLoop D rs key fontmap cas []
-  .ok ⟨info, cast, lingo, js, markers, score, fontmap⟩
+def assembleK (D : Decoders) (rs : List Res) (key : KeyData) : R DirectorFile :=
+  match locateChunk rs "VWCF" with
+  | .error e => .error e
+  | .ok vres =>
+  match vres.chunk with
+  | .error e => .error e
+  | .ok vc =>
+  match D.vwcf vc.data with
+  | .error e => .error e
+  | .ok info =>
+  match locateChunk rs "CAS*" with
+  | .error e => .error e
+  | .ok cres =>
+  match cres.chunk with
+  | .error e => .error e
+  | .ok cc =>
+  match D.cas cc.data with
+  | .error e => .error e
+  | .ok cas =>
+  match scriptsPart D rs with
+  | .error e => .error e
+  | .ok (lingo, js) =>
+  match optionalChunk rs "VWLB" (.arr []) D.vwlb with
+  | .error e => .error e
+  | .ok markers =>
+  match optionalChunk rs "VWSC" (.obj []) D.score with
+  | .error e => .error e
+  | .ok score =>
+  match optionalChunk rs "Fmap" (.arr []) D.fmap with
+  | .error e => .error e
+  | .ok fontmap =>
+  match castLoop D rs key fontmap cas [] with
+  | .error e => .error e
+  | .ok cast => .ok ⟨info, cast, lingo, js, markers, score, fontmap⟩
 
 /-- everything after the memory map has been read -/
 def assemble (D : Decoders) (o : Order) (rs : List Res) : R DirectorFile := do
